@@ -603,6 +603,28 @@ func init() {
 				c.Sample(map[string]interface{}{"gedcom": text, "page_groups": gs})
 			}
 
+			// (T) page assembly: the model predicts the skeleton of every visibility-dependent page
+			{
+				if gdoc, err := gedcom.NewDocumentFromString(text); err == nil {
+					if abs, rank, err := c17Abstract(gdoc, sr.show, sr.groups[1]); err != nil {
+						c.Oracle("", "the page abstraction could not be read", input(nil), err.Error(), "an abstraction")
+					} else {
+						ob := ""
+						for _, g := range sr.groups {
+							ob += bit(g)
+						}
+						for _, m := range []struct {
+							vis  string
+							site *c17Site
+						}{{"show", sr.show}, {"placeholder", sr.ph}, {"hide", sr.hideA}} {
+							c.Tie(fmt.Sprintf("c17site %s %s %s", m.vis, ob, abs), c17SiteSkeleton(m.site, rank))
+							c.Eval()
+							c.Count("site-skeleton/" + m.vis)
+						}
+					}
+				}
+			}
+
 			// pages of living people in the show-mode site (targets that must not be linked / exist)
 			livingPages := map[string]int{}
 			for name := range sr.show.Files {
